@@ -4,9 +4,11 @@ _COQ = ["Common/ListLemmas.v", "Keyed/Model.v", "Keyed/Spec.v", "Keyed/Proofs.v"
 _RULE = ("implementation-driven random gate-level histories of keyed.Keyed and keyed.KeyedRefCount over 2-3 keys (SetKey/RemoveKey/"
          "SyncKeys with duplicates/GetKey/GetKeys, AddKeyRef/Release in two segments (a third one if the call is found outside rc.mtx before "
          "Keyed.RemoveKey: gate 5, then raced against AddKeyRef of the same key)/KeyedRefCount.RemoveKey, Reset/Restart of one or all "
-         "routines with conditions, SetContext/ClearContext, instances stepped through their first select, user-function returns with "
+         "routines with conditions, SetContext/ClearContext over root contexts made on demand, the owner of a root context cancelling it "
+         "(installed or not, again, before it is installed; afterwards calls of every kind and timer callbacks are steered at the dead "
+         "root), instances stepped through their first select, user-function returns with "
          "nil/Canceled/error, bookkeeping sections, fake-clock advances, retry and delayed-removal timer callbacks parked and run later), "
-         "release delay 0 or 1000 ms, back-off none/[100]/[100,200] + corpus; distinct = distinct event sequence; non-trivial = >= 10 events")
+         "release delay 0 or 1000 ms (a quarter of the delayed configurations hand WithReleaseDelay the negative value), back-off none/[100]/[100,200] + corpus; distinct = distinct event sequence; non-trivial = >= 10 events")
 
 
 def _parse(ev, o):
@@ -54,10 +56,9 @@ _MODELS = [
          corpus="keyed", project={"C06": _proj_c06, "C07": _proj_c07}, quick_n=1500, thorough_n=150000, nontrivial=nt_len(10), rule=_RULE),
 ]
 _TRUSTED = SCHED_TRUSTED + [
-    "modelled, not verified: time.AfterFunc/Stop (armed/fired/stopped/ran), context.WithCancel (an instance's context is cancelled only by its cancel function: root contexts are never cancelled from outside while installed), the scripted back-off built by the WithBackoff factory (one per record), the constructor callback (data = key*1000 + construction count)",
+    "modelled, not verified: time.AfterFunc/Stop (armed/fired/stopped/ran), context.WithCancel (an instance's context is cancelled by its cancel function or, synchronously, with the root context it was derived from; it is born cancelled under a cancelled root), the scripted back-off built by the WithBackoff factory (one per record), the constructor callback (data = key*1000 + construction count)",
 ]
-_ASSUME = ["root contexts are not cancelled from outside while installed (the model has no such event)",
-           "Go map iteration order is unobservable: the model iterates in key order (SetContext, SyncKeys' removal loop, ResetAll/RestartAll), the harness numbers the instances spawned by one call in key order and compares key lists as sorted sets",
+_ASSUME = ["Go map iteration order is unobservable: the model iterates in key order (SetContext, SyncKeys' removal loop, ResetAll/RestartAll), the harness numbers the instances spawned by one call in key order and compares key lists as sorted sets",
            "the harness realises the eager schedule for instances blocked on their predecessor; the theorems cover every placement of the wake-ups",
            "exit callbacks only log (key, data, error); they run after k.mtx is released",
            "two parked timer callbacks with the same deadline, kind and key (records of one key before and after ResetRoutine) are left parked by the generator: their relative order is not determined by the runtime"]
@@ -65,7 +66,7 @@ _ASSUME = ["root contexts are not cancelled from outside while installed (the mo
 _TECH = "Coq inductive invariants and refinement over a gate-level interleaving model + schedule-controlled differential correspondence (synctest, fake clock) against the Go code"
 
 _C06 = _COQ + ["Keyed/AbsSpec.v", "Keyed/ProofsC06.v", "Keyed/ProofsTm.v", "Keyed/ProofsC06b.v", "Keyed/Props_C06.v"]
-_C07 = _COQ + ["Keyed/ProofsC07.v", "Keyed/Props_C07.v"]
+_C07 = _COQ + ["Keyed/ProofsC07.v", "Keyed/ProofsCancel.v", "Keyed/Props_C07.v"]
 
 PROPS = {
     "C06": dict(pid=6, coq=_C06, props_file="Keyed/Props_C06.v", models=_MODELS, trusted=_TRUSTED, assumptions=_ASSUME,
